@@ -94,7 +94,9 @@ class Gen:
         if k < 0.48:
             # ** with a small constant exponent; documented left-assoc chains
             base = self.int_(d - 1)
-            return ["bin", "**", base, C(r.choice([0, 1, 2, 3]))]
+            # exponent: a small constant or a variable holding a small int
+            exp = C(r.choice([0, 1, 2, 3])) if r.random() < 0.6 else N(self.pick(["i2", "i3"]))
+            return ["bin", "**", base, exp]
         if k < 0.56:
             return ["un", self.pick(["-", "+"]), self.int_(d - 1)]
         if k < 0.64:
